@@ -51,7 +51,7 @@ def mismatch_sig(m, run):
     return sig
 
 
-def replay_runs(chk: Check, runs, driver=None):
+def replay_runs(chk: Check, runs, driver=None, prop_map=None):
     by_id = {r["id"]: r for r in runs}
     if driver == "session":
         from .. import session_driver
@@ -76,6 +76,8 @@ def replay_runs(chk: Check, runs, driver=None):
                             "approved": r["info"]["F"], "beta": r["info"]["beta"], "driver": r["info"]["driver"],
                             "expected": {k: run["exp"][k] for k in ("res", "failed", "pending", "srcs")}})
             for m in r["mism"]:
+                if prop_map:
+                    m["props"] = prop_map(m)
                 chk.mismatch(m["clause"], mismatch_sig(m, run),
                              {"kind": "core-run", "run": run, "seed": chk.seed, "driver": driver, "mismatch": m,
                               "module": r["text"], "module_after": r["new"]},
@@ -91,7 +93,7 @@ EMIT_STRIDE_B = (1024, 64)
 def core_check(pid: str, *, f_filter=None, cfgs=("A",), quick_stride=8, quick_keep=20,
                thorough_stride=1, thorough_keep=8, level="model_checking", extra=None,
                sessions_quick=0, sessions_thorough=0, run_filter=None, annotate=None, keep_b=(6, 2), overrides=None,
-               session_filter=None):
+               session_filter=None, prop_map=None):
     chk = Check(pid, level)
     if chk.replay:
         return replay_file(chk)
@@ -127,7 +129,7 @@ def core_check(pid: str, *, f_filter=None, cfgs=("A",), quick_stride=8, quick_ke
                             annotate(r)
                     if not runs:
                         raise MachineryError("no cases emitted by TLC")
-                    replay_runs(chk, runs)
+                    replay_runs(chk, runs, prop_map=prop_map)
                     ns = sessions_quick if chk.quick else sessions_thorough
                     if ns and c2 == cfgs[0]:
                         cand = [r for r in runs if session_filter(r)] if session_filter else runs
